@@ -43,7 +43,7 @@ def dfs_outcomes(src, gc="none", max_runs=64, want="amps,ops,qasm,tracked,flags,
 
 def outcomes_of(draws):
     """branch taken at each draw (1 iff r < p1), as the implementation decides it"""
-    return [1 if d[3] < d[2] else 0 for d in draws]
+    return [1 if (not isinstance(d[2], str) and not isinstance(d[3], str) and d[3] < d[2]) else 0 for d in draws]    # a non-finite probability arrives as a string
 
 
 def replay_tap(rec):
